@@ -118,4 +118,13 @@ theorem nested_write_all (H : Hash) (hZ : PartialViews.ZeroInj H) (t : Ty) (p n 
     ∃ n', PartialNested.subApply H t n i op = some n' ∧ Summ H p' n' :=
   PartialNested.subApply_summ_all hZ h hs
 
+/-- obtaining a child VIEW of a partial tree (`childroot` in the protocol): when it succeeds, the complete tree has a
+    child of the same type there, the partial tree's child is a partial version of it — in particular it has the same
+    root, whatever is summarised below or AT the child's own root -/
+theorem child_view (H : Hash) (t : Ty) (p n : Node) (i : Nat) (ct : Ty) (cp : Node) (h : Summ H p n)
+    (hc : Impl.childOf H t p i = some (ct, cp)) :
+    ∃ cn, Impl.childOf H t n i = some (ct, cn) ∧ Summ H cp cn ∧ cp.root H = cn.root H := by
+  obtain ⟨cn, h1, h2⟩ := PartialNested.childOf_summ h hc
+  exact ⟨cn, h1, h2, h2.root_eq⟩
+
 end Rmk.C17
